@@ -105,7 +105,7 @@ def minimise(pool, mod, spec, res, tier, budget=160):
 
 
 def write_replay(prop, tier, vseed, spec, res, hashseed, original_spec=None, tried=0):
-    d = os.path.join(VERIF, "replays", prop)
+    d = os.path.join(os.environ.get("MDSIM_REPLAY_DIR") or os.path.join(VERIF, "replays"), prop)
     os.makedirs(d, exist_ok=True)
     body = {
         "property": prop,
@@ -271,8 +271,14 @@ def cmd_run(args) -> int:
         "wall_s": round(wall, 2),
         "violations": viol_reported,
     }
-    os.makedirs(os.path.join(VERIF, "evidence"), exist_ok=True)
-    with open(os.path.join(VERIF, "evidence", f"{prop}.json"), "w") as f:
+    evdir = os.environ.get("MDSIM_EVIDENCE_DIR") or os.path.join(VERIF, "evidence")
+    if os.environ.get("MDSIM_REPO") not in (None, "", "/repo") and not os.environ.get("MDSIM_EVIDENCE_DIR"):
+        # a run against a scratch copy (sensitivity test) must never overwrite the evidence of /repo
+        import tempfile
+
+        evdir = os.path.join(tempfile.gettempdir(), "mdsim-scratch-evidence")
+    os.makedirs(evdir, exist_ok=True)
+    with open(os.path.join(evdir, f"{prop}.json"), "w") as f:
         json.dump(ev, f, indent=1, default=core._json_default)
     print(
         f"mdsim {prop}: {len(pairs)} runs, {cov['distinct_nontrivial']} distinct non-trivial, {len(viols)} violating runs "
